@@ -185,6 +185,28 @@ impl Drop for Span {
     }
 }
 
+/// Gives up one reference to object `o`.  If it is the last owner of a Desync this is `Desync::drop`:
+/// it is reported as a call of its own (it blocks until the object's queue has drained).
+fn release(ctx: &Arc<Ctx>, o: usize, obj: Obj, thread: usize) {
+    let last = match &obj { Obj::D(d) => Arc::strong_count(d) == 1, Obj::Q(..) => false };
+    if !last { drop(obj); return; }
+    let id = ctx.ncalls + 2_000_000 + ctx.clock.fetch_add(1, Ordering::SeqCst) as usize;
+    ctx.status.lock().unwrap().insert(thread, (id, "dropobj", o));
+    rt::emit(&format!("inv {} dropobj {}", id, o));
+    let before = ctx.clock.load(Ordering::SeqCst);
+    drop(obj);
+    if ctx.drops[o].load(Ordering::SeqCst) != 1 { ctx.fail(&["C05"], format!("dropping the last owner of object {} returned without freeing the value exactly once ({} frees)", o, ctx.drops[o].load(Ordering::SeqCst))); }
+    // every operation accepted before the drop began has finished
+    for (cid, c) in ctx.calls.iter().enumerate() {
+        if c.obj == o && c.accepted.load(Ordering::SeqCst) && c.ret.load(Ordering::SeqCst) != 0 && c.ret.load(Ordering::SeqCst) <= before
+            && c.kind != "fsync" && c.kind != "suspend" && c.kind != "dropobj" && c.end.load(Ordering::SeqCst) == 0 {
+            ctx.fail(&["C05"], format!("drop of object {} returned while operation {} ({}) scheduled before it had not finished", o, cid, c.kind));
+        }
+    }
+    rt::emit(&format!("ret {} ok", id));
+    ctx.status.lock().unwrap().remove(&thread);
+}
+
 fn closure_body(ctx: &Arc<Ctx>, node: &Node, obj: usize, thread: usize) -> u64 {
     ctx.enter(node.id, obj);
     run_ops(ctx, &node.body, thread);
@@ -251,7 +273,7 @@ pub fn run_ops(ctx: &Arc<Ctx>, ops: &[Node], thread: usize) {
                     Obj::Q(q, _) => scheduler::desync(q, move || { closure_body(&c2, &n2, o2, thread); c2.op_completed(); }),
                 }
                 call_end(ctx, node, thread, "ok");
-                drop(obj);
+                release(ctx, *o, obj, thread);
             }
             Op::Sync(o, _) => {
                 let Some(obj) = ctx.obj(*o) else { ctx.stat("skipped-dropped"); continue };
@@ -263,7 +285,7 @@ pub fn run_ops(ctx: &Arc<Ctx>, ops: &[Node], thread: usize) {
                 };
                 check_sync_result(ctx, node, v, "sync", "C04");
                 call_end(ctx, node, thread, "ok");
-                drop(obj);
+                release(ctx, *o, obj, thread);
             }
             Op::TrySync(o, _) => {
                 let Some(obj) = ctx.obj(*o) else { ctx.stat("skipped-dropped"); continue };
@@ -281,7 +303,7 @@ pub fn run_ops(ctx: &Arc<Ctx>, ops: &[Node], thread: usize) {
                         call_end(ctx, node, thread, "busy");
                     }
                 }
-                drop(obj);
+                release(ctx, *o, obj, thread);
             }
             Op::FDesync(o, g, f) => {
                 let Some(obj) = ctx.obj(*o) else { ctx.stat("skipped-dropped"); continue };
@@ -294,7 +316,7 @@ pub fn run_ops(ctx: &Arc<Ctx>, ops: &[Node], thread: usize) {
                 };
                 call_end(ctx, node, thread, "ok");
                 match f { Some(f) => { ctx.futs.lock().unwrap().insert(*f, Fut::Sched(fut, node.id)); } None => fut.detach() }
-                drop(obj);
+                release(ctx, *o, obj, thread);
             }
             Op::After(o, g, f) => {
                 let Some(obj) = ctx.obj(*o) else { ctx.stat("skipped-dropped"); continue };
@@ -309,7 +331,7 @@ pub fn run_ops(ctx: &Arc<Ctx>, ops: &[Node], thread: usize) {
                 };
                 call_end(ctx, node, thread, "ok");
                 match f { Some(f) => { ctx.futs.lock().unwrap().insert(*f, Fut::Boxed(fut, node.id)); } None => drop(fut) }
-                drop(obj);
+                release(ctx, *o, obj, thread);
             }
             Op::FSync(o, g, f) => {
                 let Some(obj) = ctx.obj(*o) else {
@@ -333,6 +355,20 @@ pub fn run_ops(ctx: &Arc<Ctx>, ops: &[Node], thread: usize) {
                     i += 1;
                     match &next.op {
                         Op::Yield => rt::yield_now(),
+                        Op::PollOnce(x) if x == f => {
+                            rt::emit(&format!("inv {} pollonce {}", next.id, node.id));
+                            let r = poll_once(fut.as_mut().unwrap());
+                            match r {
+                                std::task::Poll::Ready(r) => {
+                                    rt::emit(&format!("ret {} {}", next.id, if r.is_ok() { "ok" } else { "canceled" }));
+                                    match r { Ok(v) => check_sync_result(ctx, node, v, "future_sync", "C08"), Err(_) => ctx.fail(&["C08"], format!("future_sync {} resolved to Canceled", node.id)) }
+                                    fut = None;
+                                    // the matching await/dropf has nothing left to do
+                                    while i < ops.len() { let stop = matches!(&ops[i].op, Op::Await(x) | Op::DropF(x) if x == f); i += 1; if stop { break; } }
+                                }
+                                std::task::Poll::Pending => rt::emit(&format!("ret {} pending", next.id)),
+                            }
+                        }
                         Op::Await(x) if x == f => {
                             ctx.status.lock().unwrap().insert(thread, (next.id, "await-fsync", *o));
                             rt::emit(&format!("inv {} await {}", next.id, node.id));
@@ -356,7 +392,7 @@ pub fn run_ops(ctx: &Arc<Ctx>, ops: &[Node], thread: usize) {
                     }
                 }
                 drop(fut);
-                drop(obj);
+                release(ctx, *o, obj, thread);
             }
             Op::Suspend(o, f) => {
                 let Some(obj) = ctx.obj(*o) else { ctx.stat("skipped-dropped"); continue };
@@ -414,6 +450,26 @@ pub fn run_ops(ctx: &Arc<Ctx>, ops: &[Node], thread: usize) {
                     Fut::Resumer(..) => panic!("harness: await of a resumer"),
                 }
             }
+            Op::PollOnce(f) => {
+                let fut = ctx.futs.lock().unwrap().remove(f);
+                let Some(mut fut) = fut else { ctx.stat("skipped-nofuture"); continue };
+                let of = match &fut { Fut::Sched(_, of) | Fut::Boxed(_, of) | Fut::Suspend(_, of) | Fut::Resumer(_, of) => *of };
+                if let Fut::Resumer(..) = &fut { ctx.futs.lock().unwrap().insert(*f, fut); continue }
+                rt::emit(&format!("inv {} pollonce {}", node.id, of));
+                let done = match &mut fut {
+                    Fut::Sched(fu, _) => match poll_once(fu) { std::task::Poll::Ready(r) => { rt::emit(&format!("ret {} {}", node.id, if r.is_ok() { "ok" } else { "canceled" })); check_future_result(ctx, of, r, "future_desync"); true } std::task::Poll::Pending => false },
+                    Fut::Boxed(fu, _) => match poll_once(fu) { std::task::Poll::Ready(r) => { rt::emit(&format!("ret {} {}", node.id, if r.is_ok() { "ok" } else { "canceled" })); check_future_result(ctx, of, r, "after"); true } std::task::Poll::Pending => false },
+                    Fut::Suspend(fu, _) => match poll_once(fu) {
+                        std::task::Poll::Ready(r) => {
+                            rt::emit(&format!("ret {} {}", node.id, if r.is_ok() { "ok" } else { "canceled" }));
+                            if let Ok(resumer) = r { ctx.calls[of].start.store(ctx.tick(), Ordering::SeqCst); ctx.futs.lock().unwrap().insert(*f, Fut::Resumer(resumer, of)); }
+                            continue
+                        }
+                        std::task::Poll::Pending => false },
+                    Fut::Resumer(..) => true,
+                };
+                if !done { rt::emit(&format!("ret {} pending", node.id)); ctx.futs.lock().unwrap().insert(*f, fut); }
+            }
             Op::SyncF(f) => {
                 let fut = ctx.futs.lock().unwrap().remove(f);
                 match fut {
@@ -435,7 +491,7 @@ pub fn run_ops(ctx: &Arc<Ctx>, ops: &[Node], thread: usize) {
                 if let Some(fut) = fut {
                     let of = match &fut { Fut::Sched(_, of) | Fut::Boxed(_, of) | Fut::Suspend(_, of) | Fut::Resumer(_, of) => *of };
                     rt::emit(&format!("inv {} dropf {}", node.id, of));
-                    if let Fut::Resumer(..) = &fut { ctx.calls[of].end.store(ctx.tick(), Ordering::SeqCst); }
+                    if let Fut::Resumer(..) = &fut { ctx.calls[of].end.store(ctx.tick(), Ordering::SeqCst); rt::emit(&format!("rsend {}", of)); }
                     drop(fut);
                     rt::emit(&format!("ret {} ok", node.id));
                 } else { ctx.stat("skipped-nofuture"); }
@@ -446,6 +502,7 @@ pub fn run_ops(ctx: &Arc<Ctx>, ops: &[Node], thread: usize) {
                     Some(Fut::Resumer(r, of)) => {
                         rt::emit(&format!("inv {} resume {}", node.id, of));
                         ctx.calls[of].end.store(ctx.tick(), Ordering::SeqCst);
+                        rt::emit(&format!("rsend {}", of));
                         r.resume();
                         rt::emit(&format!("ret {} ok", node.id));
                     }
@@ -462,22 +519,10 @@ pub fn run_ops(ctx: &Arc<Ctx>, ops: &[Node], thread: usize) {
             Op::DropObj(o) => {
                 let taken = ctx.objs[*o].lock().unwrap().take();
                 if let Some(obj) = taken {
-                    call_begin(ctx, node, thread, *o);
                     ctx.dropobj_done[*o].store(true, Ordering::SeqCst);
-                    let sole = match &obj { Obj::D(d) => Arc::strong_count(d) == 1, Obj::Q(..) => false };
-                    let before = ctx.clock.load(Ordering::SeqCst);
-                    drop(obj);
-                    if sole {
-                        if ctx.drops[*o].load(Ordering::SeqCst) != 1 { ctx.fail(&["C05"], format!("dropping the last owner of object {} returned without freeing the value exactly once ({} frees)", o, ctx.drops[*o].load(Ordering::SeqCst))); }
-                        // every operation accepted before the drop began has finished
-                        for (id, c) in ctx.calls.iter().enumerate() {
-                            if c.obj == *o && c.accepted.load(Ordering::SeqCst) && c.ret.load(Ordering::SeqCst) != 0 && c.ret.load(Ordering::SeqCst) <= before
-                                && c.kind != "fsync" && c.kind != "suspend" && c.kind != "dropobj" && c.end.load(Ordering::SeqCst) == 0 {
-                                ctx.fail(&["C05"], format!("drop of object {} returned while operation {} ({}) scheduled before it had not finished", o, id, c.kind));
-                            }
-                        }
-                    }
-                    call_end(ctx, node, thread, "ok");
+                    ctx.calls[node.id].inv.store(ctx.tick(), Ordering::SeqCst);
+                    release(ctx, *o, obj, thread);
+                    ctx.calls[node.id].ret.store(ctx.tick(), Ordering::SeqCst);
                 } else { ctx.stat("skipped-dropped"); }
             }
             Op::SetMax(n) => {
@@ -495,6 +540,11 @@ pub fn run_ops(ctx: &Arc<Ctx>, ops: &[Node], thread: usize) {
             Op::Yield => rt::yield_now(),
         }
     }
+}
+
+/// Polls a future once with a waker that only records that it fired.
+fn poll_once<F: Future + Unpin>(fut: &mut F) -> std::task::Poll<F::Output> {
+    rt::poll_once(fut)
 }
 
 fn check_future_result(ctx: &Arc<Ctx>, of: usize, r: Result<u64, oneshot::Canceled>, what: &'static str) {
